@@ -51,7 +51,7 @@ static std::string getters(ProgramOptions& o) {
     std::ostringstream s; s.precision(17);
     s << o.getGridSize() << ' ' << o.getOutSteps() << ' ' << o.getPadding() << ' ' << o.getRoundPadding() << ' ' << o.getStepsPerTsync() << ' ' << o.getStepsPerTrev() << ' ' << o.getNRotations() << ' ' << o.getPhaseSpaceSize() << ' '
       << o.getPSShiftX() << ' ' << o.getPSShiftY() << ' ' << o.getRenormalizeCharge() << ' ' << o.getFPTrack() << ' ' << o.getFPType() << ' ' << o.getDerivationType() << ' ' << o.getInterpolationPoints() << ' ' << o.getInterpolationClamped() << ' '
-      << (o.getSyncFreq() == 0 ? o.getAlpha0() : 0) << ' ' << o.getAlpha1() << ' ' << o.getAlpha2() << ' ' << o.getRFAmplitudeSpread() << ' ' << o.getRFPhaseSpread() << ' ' << o.getRFPhaseModAmplitude() << ' ' << o.getRFPhaseModFrequency() << ' ' << o.getBeamEnergy() << ' '
+      << o.getAlpha0() << ' ' << o.getAlpha1() << ' ' << o.getAlpha2() << ' ' << o.getRFAmplitudeSpread() << ' ' << o.getRFPhaseSpread() << ' ' << o.getRFPhaseModAmplitude() << ' ' << o.getRFPhaseModFrequency() << ' ' << o.getBeamEnergy() << ' '
       << o.getBendingRadius() << ' ' << o.getCutoffFrequency() << ' ' << o.getEnergySpread() << ' ' << o.getHarmonicNumber() << ' ' << o.getRevolutionFrequency() << ' ' << o.getRFVoltage() << ' ' << o.getStartDistZoom() << ' '
       << o.getSyncFreq() << ' ' << o.getDampingTime() << ' ' << o.getVacuumChamberGap() << ' ' << o.getUseCSR() << ' ' << o.getLinearRF() << ' ' << o.getCollimatorRadius() << ' ' << o.getWallConductivity() << ' ' << o.getWallSusceptibility() << ' '
       << o.getSavePhaseSpace() << ' ' << o.getVerbosity() << ' ' << o.getStartDistStep() << " I:";
